@@ -216,6 +216,8 @@ def judge(c, n, rng, ims_kind, method, buf):
     if rng is None:
         if code != 200 or cl != str(n) or (method == 'GET' and body != data):
             return 'plain', f'no Range: status {code}, Content-Length {cl}, {len(body)} bytes; the file has {n}'
+        if cr is not None:
+            return 'plain-with-content-range', f'no Range was asked for, the 200 answer for the whole file carries Content-Range {cr!r}'
         return None
     klass, sl = ref_range(rng, n)
     if code == 206:
